@@ -140,6 +140,7 @@ def check(run, ctx):
     r3(run, ctx)
     r4(run, ctx)
     r5(run, ctx)
+    r6(run, ctx)
 
 
 def r1(run, ctx, seen):
@@ -314,3 +315,21 @@ def r5(run, ctx):
                           'awaited', f, s.node.ast, 'a tornado_sleep is not yielded: the '
                           'coroutine does not wait at all')
     run.count('R5', n, 3, 'tornado_sleep call sites in supervisor coroutines')
+
+
+def r6(run, ctx):
+    run.rule('R6', 'exclusive-slot discipline (shared with C10 R1): a slot that is stolen or '
+             'never freed lets operations overlap or wedges every later request')
+    from rules import c10
+    sub = type(run)(run.prop_id, run.tier, run.project)
+    c10.r1(sub, ctx)
+    for o in sub.obligations:
+        o = dict(o)
+        o['rule'] = 'R6'
+        if 'key' in o:
+            o['key'] = o['key'].replace('R1|', 'R6|', 1)
+        run.obligations.append(o)
+    for fd in sub.findings:
+        fd.rule = 'R6'
+        fd.key = fd.key.replace('R1|', 'R6|', 1)
+        run.findings.append(fd)
